@@ -52,34 +52,34 @@ type violAgg struct {
 }
 
 type parent struct {
-	c          *ev.Ctx
-	units      []unit
-	mu         sync.Mutex
-	viol       map[string]*violAgg
-	hist       map[string]int64
-	entryOK    map[string]int64
-	entryErr   map[string]int64
-	items      [2]int64
-	evals      [2]int64
-	accepted   [2]int64
-	csum       [2]map[int]string
-	remeas     int64
-	maxAlloc   uint64
-	disabled   [2]map[int]bool // per mode: entry index -> disabled
-	crashes    [2]map[int]int
-	hangs      [2]map[int]int
-	suspects   []suspect
-	seenSusp   map[string]bool
-	cleared    int64
-	iso        sync.WaitGroup
-	deadline   time.Time
-	done       [2]map[int]bool
-	partial    [2]map[int]bool
-	restarts   int64
-	unitMs     map[string]int64
-	workdir    string
-	corpusFile string
-	broken     string
+	c           *ev.Ctx
+	units       []unit
+	mu          sync.Mutex
+	viol        map[string]*violAgg
+	hist        map[string]int64
+	entryOK     map[string]int64
+	entryErr    map[string]int64
+	items       [2]int64
+	evals       [2]int64
+	accepted    [2]int64
+	csum        [2]map[int]string
+	remeas      int64
+	maxAlloc    uint64
+	disabled    [2]map[int]bool // per mode: entry index -> disabled
+	crashes     [2]map[int]int
+	hangs       [2]map[int]int
+	suspects    []suspect
+	isolatedLen map[string]int // (kind|mode|entry) -> length of the input already re-run in isolation
+	cleared     int64
+	iso         sync.WaitGroup
+	deadline    time.Time
+	done        [2]map[int]bool
+	partial     [2]map[int]bool
+	restarts    int64
+	unitMs      map[string]int64
+	workdir     string
+	corpusFile  string
+	broken      string
 }
 
 func modeIdx(m string) int {
@@ -126,7 +126,7 @@ func run(c *ev.Ctx) {
 		"G-tlv = for each seed (fixtures found under the repository + certificates/CSRs/CRLs/OCSP/keys created by the harness) the seed itself, every (TLV node x %d operators) single mutation with ancestor lengths fixed up, every single-byte substitution from {00,01,7f,80,ff,b^01,b^80} at every offset, every truncation (seeds > 4 KiB: byte-level menus on head/tail windows only)%s; "+
 		"G-field = every assignment of the certificate model (%d fields, %d non-default alternatives) with <= %d non-default fields = %d certificates, each also as bare TBSCertificate; "+
 		"closed models of SST, CRLSet, OneCRL (entry lists over small alphabets), JSON-tree mutations of a OneCRL fixture, and the full product of a constructed-RSA-key alphabet. "+
-		"distinct_nontrivial = inputs accepted (value, nil error) by at least one entry point in permissive mode.",
+		"distinct_nontrivial = inputs accepted (value, nil error) in permissive mode by at least one entry point other than the cryptobyte readers, i.e. inputs that got past the outermost parse step of a decoder.",
 		len(units), len(entries), xgen.TLVMenuSize, map[bool]string{true: "", false: ", plus every pair of core-menu mutations on siblings / parent+child (TLVPairs) for seeds <= 1500 bytes"}[quick],
 		len(xgen.Fields()), nonDefaultAlts(), d, xgen.CountAssignments(d)))
 	c.Assume("oracle = no panic (recover), the call returns, runtime.MemStats.TotalAlloc delta of the call <= 64 MiB + 4096*len(input) (batches whose total stays below 64 MiB are not re-measured call by call), not (nil value and nil error)",
@@ -135,12 +135,12 @@ func run(c *ev.Ctx) {
 		"generators are deterministic: the parent cross-checks an FNV checksum of every unit's inputs between the strict and the permissive worker")
 
 	if c.Replay != nil {
-		replay(c)
+		replay(c, units)
 		return
 	}
 
 	p := &parent{c: c, units: units, viol: map[string]*violAgg{}, hist: map[string]int64{}, entryOK: map[string]int64{}, entryErr: map[string]int64{},
-		seenSusp: map[string]bool{}, unitMs: map[string]int64{}}
+		isolatedLen: map[string]int{}, unitMs: map[string]int64{}}
 	for m := range modes {
 		p.csum[m] = map[int]string{}
 		p.disabled[m] = map[int]bool{}
@@ -722,20 +722,30 @@ func (p *parent) raise(s suspect) {
 			p.disabled[mi][ei] = true
 		}
 	}
-	first := !p.seenSusp[key]
-	p.seenSusp[key] = true
+	// isolated re-runs: for the first suspect of each (kind, mode, entry), and
+	// once more when a later suspect offers a small (≤ 2 KiB) input while the
+	// one already examined was large — witnesses should be minimal.
+	prevLen, seen := p.isolatedLen[key]
 	p.mu.Unlock()
-	if !first {
+	if seen && prevLen <= 2048 {
 		return
 	}
+	desc, in, _, ok := regenerate(u, s.item, s.entry)
+	if !ok {
+		p.setBroken(fmt.Sprintf("cannot regenerate suspect input unit=%s item=%d", u.name, s.item))
+		return
+	}
+	p.mu.Lock()
+	prevLen, seen = p.isolatedLen[key]
+	if seen && (prevLen <= 2048 || len(in) > 2048) {
+		p.mu.Unlock()
+		return
+	}
+	p.isolatedLen[key] = len(in)
+	p.mu.Unlock()
 	p.iso.Add(1)
 	go func() {
 		defer p.iso.Done()
-		desc, in, _, ok := regenerate(u, s.item, s.entry)
-		if !ok {
-			p.setBroken(fmt.Sprintf("cannot regenerate suspect input unit=%s item=%d", u.name, s.item))
-			return
-		}
 		e := entries[ei]
 		fails, classes := isolate(e.name, s.mode, in)
 		if fails < 3 {
@@ -818,34 +828,56 @@ func runSingle(entry, mode string, in []byte, limit time.Duration) (singleRes, s
 
 // replay re-executes one recorded witness in an isolated child and applies
 // the same oracle.
-func replay(c *ev.Ctx) {
+func replay(c *ev.Ctx, units []unit) {
 	var w witness
 	if err := json.Unmarshal(c.Replay, &w); err != nil {
 		c.Broken("bad witness: %v", err)
 	}
 	in := unhex(w.InputHex)
 	if w.InputHex == "" && w.InputLen > 0 {
-		c.Broken("witness input too large to be inlined; regenerate it from unit %q item %d", w.Unit, w.Item)
+		// large inputs are not inlined: re-enumerate the unit up to the item
+		found := false
+		for i := range units {
+			if units[i].name != w.Unit {
+				continue
+			}
+			for pos, ei := range units[i].entries {
+				if entries[ei].name == w.Entry {
+					if _, b, _, ok := regenerate(&units[i], w.Item, pos); ok {
+						in, found = b, true
+					}
+				}
+			}
+		}
+		if !found {
+			c.Broken("cannot regenerate the input of unit %q item %d (the unit list depends on tier and repository files)", w.Unit, w.Item)
+		}
 	}
 	sr, cls, err := runSingle(w.Entry, w.Mode, in, 60*time.Second)
 	c.Evaluations.Add(1)
 	c.States.Add(1)
+	n := c.NViolations()
 	switch {
 	case err != nil && strings.HasPrefix(cls, "timeout"):
 		c.Violation(fmt.Sprintf("hang@%s: no return within 60 s in 3 isolated runs [%s]", w.Entry, w.Mode), w)
 	case err != nil:
 		c.Violation(fmt.Sprintf("crash@%s: %s [%s]", w.Entry, cls, w.Mode), w)
-	case sr.Panicked:
-		site := sr.Site
-		if site == "" {
-			site = w.Entry
-		}
-		c.Violation(fmt.Sprintf("panic@%s: %s [%s]", site, ev.MsgClass(sr.PanicMsg), w.Mode), w)
-	case sr.NilNil:
-		c.Violation(fmt.Sprintf("nil-value-and-nil-error@%s [%s]", w.Entry, w.Mode), w)
-	case sr.Alloc > allocBound(len(in)):
-		c.Violation(fmt.Sprintf("alloc@%s: TotalAlloc delta > 64 MiB + 4096*len(input) [%s]", w.Entry, w.Mode), w)
 	default:
+		if sr.Panicked {
+			site := sr.Site
+			if site == "" {
+				site = w.Entry
+			}
+			c.Violation(fmt.Sprintf("panic@%s: %s [%s]", site, ev.MsgClass(sr.PanicMsg), w.Mode), w)
+		}
+		if sr.NilNil {
+			c.Violation(fmt.Sprintf("nil-value-and-nil-error@%s [%s]", w.Entry, w.Mode), w)
+		}
+		if sr.Alloc > allocBound(len(in)) {
+			c.Violation(fmt.Sprintf("alloc@%s: TotalAlloc delta > 64 MiB + 4096*len(input) [%s]", w.Entry, w.Mode), w)
+		}
+	}
+	if c.NViolations() == n {
 		c.Outcome("replay: conforming (err="+shortClass(sr.Err)+")", 1)
 	}
 }
